@@ -678,6 +678,10 @@ func prepareBatchItem(bc *BatchCheck, fc *ProgCheck, it *batchItem, tmp string, 
 				counts["not_compiling:"+t]++
 				// the property is about what this generated code does: code that does not compile does nothing
 				// (C01 reports the same program for its own reason)
+				if bc.ID != "C02" && bc.ID != "C15" && bc.ID != "C05" {
+					// the Go code is only the means to obtain documents here (C03, C04): C01's business
+					return false
+				}
 				r.Fail(evid.Failure{Clause: bc.ID + "/generated-code-usable", Sig: t + " does not compile: " + errClass(errs[0]),
 					Detail: fmt.Sprintf("the output of %s does not type-check with its source package, so nothing of the property can hold for this program:\n%s", t, strings.Join(errs, "\n")),
 					Family: fc.Family, Features: p.Features, Files: p.FilesMap(), Vector: it.vec, Cost: explore.Cost(it.vec)})
